@@ -555,6 +555,35 @@ def run(ctx):
                     if msg:
                         oracle_hits.append((dict(kind=kind, parameter=par, x=xs.tolist(), impl=val), msg))
 
+    # ---- wide-range stress (oracle only): SoftMinMax is built on scipy's shifted soft-max, so |alpha| * (max - min) far beyond
+    #      the exponent range of binary64 (709) must still give a finite value inside the bounds, for both signs of alpha
+    #      and with undamped scaling the exact extreme (seeded change C16-m8: a hand-written shift by max(x) overflows for alpha < 0)
+    wide = [[1.0, 20.0, 60.0], [3.0, 400.0, 150.0, 2.0], [0.5, 1000.0], [250.0, 250.0, 1.0, 800.0, 40.0]]
+    for par in [20.0, -20.0, 5.0, -5.0, 2.0, -2.0]:
+        for xs in wide:
+            xs = np.array(xs)
+            for which in (None, 'max' if par > 0 else 'min'):
+                sig = pym.Signal('x', state=xs.copy())
+                info = dict(site='SoftMinMax.aggregation_function', pred='aggregation bounds (wide range)', kind='SoftMinMax', parameter=par,
+                            x=xs.tolist(), scaling=which)
+                try:
+                    mod = make_module(pym, 'SoftMinMax', sig, par, scaling=pym.AggScaling(which, damping=0.0) if which else None)
+                    mod.response()
+                    val = float(mod.sig_out[0].state)
+                except Exception as e:
+                    oracle_hits.append((dict(info, impl=type(e).__name__), 'aggregation raised ' + type(e).__name__))
+                    continue
+                ctx.count(f'agg-wide:SoftMinMax:{"pos" if par > 0 else "neg"}:{"scaled" if which else "plain"}')
+                ctx.search_evaluations += 1
+                if which:
+                    ext = float(xs.max() if par > 0 else xs.min())
+                    if not abs(val - ext) <= 1e-9 * abs(ext):
+                        oracle_hits.append((dict(info, impl=val), f'undamped scaling: output {val} is not the true extreme {ext}'))
+                else:
+                    msg = agg_bounds_oracle('SoftMinMax', par, xs, val)
+                    if msg:
+                        oracle_hits.append((dict(info, impl=val), msg))
+
     # ---- Aggregation pipeline: histories of response() calls with scaling and active set; the aggregation parameter
     #      (p / rho / alpha, also its sign) may be RE-ASSIGNED on the module between the calls (continuation)
     fd_checked = [0]
